@@ -169,6 +169,72 @@ func buildVsRegister() (completed bool) {
 	return true
 }
 
+// encoderVsReregister: NewEncoderFor is started with builder A registered for a field type; A's builder parks until
+// Register(B) for the same type has returned; afterwards (everything at rest) two more encoders are made and one row
+// is written with each: the row must have been written by B's codec.
+type encRegT struct{ V int64 }
+type encRegRow struct {
+	F encRegT `json:"f"`
+	Z int64   `json:"z"`
+}
+type markCodec struct {
+	avro.Int64Codec
+	mark int64
+}
+
+func (m markCodec) Write(w *avro.WriteBuf, p unsafe.Pointer) { w.Varint(m.mark) }
+
+func encoderVsReregister() string {
+	started, release := make(chan struct{}, 1), make(chan struct{})
+	t := reflect.TypeOf(encRegT{})
+	avro.RegisterSchema(t, avro.Schema{Type: "long"})
+	avro.Register(t, func(s avro.Schema, typ reflect.Type, omit bool) (avro.Codec, error) {
+		select {
+		case started <- struct{}{}:
+			<-release
+		default:
+		}
+		return markCodec{mark: 11}, nil
+	})
+	done := make(chan error, 1)
+	go func() {
+		var sink bytes.Buffer
+		_, err := avro.NewEncoderFor[encRegRow](&sink, avro.CompressionNull, 10)
+		done <- err
+	}()
+	select {
+	case <-started:
+	case <-time.After(3 * time.Second):
+		close(release)
+		return "ok" // the builder was never reached: nothing realised
+	}
+	avro.Register(t, func(s avro.Schema, typ reflect.Type, omit bool) (avro.Codec, error) { return markCodec{mark: 22}, nil })
+	close(release)
+	select {
+	case <-done:
+	case <-time.After(5 * time.Second):
+		return "the encoder under construction never finished"
+	}
+	for k := 0; k < 2; k++ {
+		var sink bytes.Buffer
+		enc, err := avro.NewEncoderFor[encRegRow](&sink, avro.CompressionNull, 0)
+		if err != nil {
+			return "NewEncoderFor: " + err.Error()
+		}
+		before := sink.Len()
+		if err := enc.Encode(&encRegRow{F: encRegT{5}, Z: 1}); err != nil {
+			return "Encode: " + err.Error()
+		}
+		enc.Flush()
+		blk := sink.Bytes()[before:]
+		// block = count(1) len(2) payload(mark, z) sync: the mark is the third byte
+		if len(blk) < 3 || blk[2] != byte(22*2) {
+			return fmt.Sprintf("an encoder made after the re-registration returned wrote with the old builder's codec (payload % x)", blk[:min(len(blk), 6)])
+		}
+	}
+	return "ok"
+}
+
 // nestingProbe runs codec construction, schema generation, registration and timestamp parsing on ONE goroutine
 // with nothing else running and records the section events in order. Judged against the design rule of
 // spec/RWLockBuild.tla (NoRecursiveRLock): deterministic, no timing involved.
@@ -805,6 +871,13 @@ func driveC12(c *driverCtx) error {
 		if !ok {
 			break // the goroutines are stuck for good; the registry is unusable from here on
 		}
+	}
+	// (1a') an encoder being made for a row type while a field type of it is re-registered: the encoders made after
+	// the re-registration has returned use the new builder (nothing built during the overlap is kept as current)
+	for rep := 0; rep < c.pick(2, 6) && !deadlocked; rep++ {
+		out := encoderVsReregister()
+		c.rec.NewCase()
+		c.rec.Emit("C12|encoder-vs-reregister", map[string]any{"op": "conc_reg", "g": 0, "seq": rep, "out": out})
 	}
 	// (1b) zone-cache hammer in ordinary (fast) children: several rounds, each a fresh process
 	for round := 0; round < c.pick(10, 40); round++ {
